@@ -234,7 +234,9 @@ impl IncanLanguageServer {
                         let ver = dep_doc.map(|d| d.version);
                         #[cfg(incan_verif)]
                         crate::lsp::verif_gate::gate("deps_publish", uri, Some(_entry_version)).await;
-                        self.client.publish_diagnostics(u.clone(), diags, ver).await;
+                        if dep_doc.is_none() {
+                            self.client.publish_diagnostics(u.clone(), diags, ver).await;
+                        }
                     }
 
                     // Summarize in the entry file.
@@ -268,7 +270,9 @@ impl IncanLanguageServer {
                         let ver = dep_doc.map(|d| d.version);
                         #[cfg(incan_verif)]
                         crate::lsp::verif_gate::gate("deps_publish", uri, Some(_entry_version)).await;
-                        self.client.publish_diagnostics(u.clone(), diags, ver).await;
+                        if dep_doc.is_none() {
+                            self.client.publish_diagnostics(u.clone(), diags, ver).await;
+                        }
                     }
 
                     let range = span_to_range(entry_source, import_span.start, import_span.end);
@@ -291,11 +295,14 @@ impl IncanLanguageServer {
             };
 
             // Dependency parsed successfully: clear old dependency diagnostics if any.
+            // An open document is analyzed by its own handler, which is the only publisher of its diagnostics.
             if let Some(u) = dep_uri.clone() {
                 let ver = dep_doc.map(|d| d.version);
                 #[cfg(incan_verif)]
                 crate::lsp::verif_gate::gate("deps_publish", uri, Some(_entry_version)).await;
-                self.client.publish_diagnostics(u.clone(), vec![], ver).await;
+                if dep_doc.is_none() {
+                    self.client.publish_diagnostics(u.clone(), vec![], ver).await;
+                }
             }
 
             // Queue nested dependencies
